@@ -692,6 +692,38 @@ def discover_raw_dict_emitters() -> List[str]:
     return sorted(found)
 
 
+HANDLE_DRIVEN = {"ElicitationClient.handle_elicitation_request": "part e-raw-dict-emitters (user data of every JSON kind, exceptions)"}
+
+
+def discover_handle_methods() -> Dict[str, str]:
+    """Functions / methods named handle_*request* in the package (AST walk), with what this check does with each."""
+    import chuk_mcp
+
+    root = os.path.dirname(os.path.abspath(chuk_mcp.__file__))
+    out: Dict[str, str] = {}
+    for d, _dirs, files in sorted(os.walk(root)):
+        for f in sorted(files):
+            if not f.endswith(".py"):
+                continue
+            try:
+                tree = ast.parse(open(os.path.join(d, f), encoding="utf-8").read())
+            except SyntaxError:
+                continue
+
+            def walk(node, stack):
+                for ch in ast.iter_child_nodes(node):
+                    if isinstance(ch, (ast.FunctionDef, ast.AsyncFunctionDef)):
+                        if ch.name.startswith("handle_") and "request" in ch.name:
+                            q = ".".join(stack + [ch.name])
+                            out[q] = HANDLE_DRIVEN.get(q, "listed, not driven here: builds its answer with the create_* constructors "
+                                                          "(driven in part a) or returns a typed result object, not an envelope dict")
+                    elif isinstance(ch, ast.ClassDef):
+                        walk(ch, stack + [ch.name])
+
+            walk(tree, [])
+    return out
+
+
 class _Coded(Exception):
     def __init__(self, msg, code):
         super().__init__(msg)
@@ -840,6 +872,8 @@ def _run_elicit_client(cfg) -> Dict[str, Any]:
     cases: List[Tuple[str, Any]] = [("data", o) for o in objs[cfg["lo"]:cfg["hi"]]]
     if cfg["lo"] == 0:
         cases += [("raise", n) for n, _ in fam]
+        # the user callback may hand back ANY value (a dismissed dialog: None; a number, a flag, text, a list)
+        cases += [("data", x) for x in table("values", 1) if not isinstance(x, dict)]
     for kind, x in cases:
         async def user_input(message, schema, title, kind=kind, x=x):
             if kind == "raise":
@@ -1913,6 +1947,7 @@ def run(tier: str, only=None) -> core.Result:
     cov["raw_dict_emitters_discovered"] = {r: ("driven: " + RAW_DRIVEN[r]) if r in RAW_DRIVEN else ("undriven: " + RAW_UNDRIVEN.get(r, "?"))
                                            for r in raw}
     cov["progress_token_emitters_discovered"] = [hd.short(e["name"]) if e["what"] == "helper" else _ctor_label(e["ctor"]) for e in pem]
+    cov["handle_request_methods_discovered"] = discover_handle_methods()
     cov["constructors_discovered"] = [_ctor_label(c) for c in ctors]
     cov["send_helpers_discovered"] = [h["name"] for h in disc["helpers"]]
     cov["send_methods_covered_by_transport_part"] = disc["methods"]
@@ -1947,8 +1982,8 @@ def run(tier: str, only=None) -> core.Result:
         "object as params / every depth-1 value and every depth-2 object as result / error.data. "
         "(e) every function with a {'jsonrpc': ...} dict literal (AST walk) is driven or listed with a reason: BatchProcessor.process_message_data x 4 versions x 17 ids x "
         "every batch of 1..2 members over {request, notification, non-object} x handler behaviour {answers, silent, raises one of 13 exceptions incl. "
-        "`code` attributes str / callable / None / float / bool / 2^64}; ElicitationClient.handle_elicitation_request x id x every object as user data and the "
-        "exception family; ElicitationHandler.request_user_input x every object as schema x 3 texts x title present/absent. "
+        "`code` attributes str / callable / None / float / bool / 2^64}; ElicitationClient.handle_elicitation_request x id x every object AND every non-object JSON value (null, numbers, booleans, strings, "
+        "lists) as user data and the exception family; ElicitationHandler.request_user_input x every object as schema x 3 texts x title present/absent. "
         + "stdio: the second and third method only with the first block of payloads. "
         + ("" if tier == "quick" else "thorough: constructors with depth-3 payloads x ids {2^64-1, empty string} plus depth-2 payloads x all 17 ids; "
            "server and stdio with 5 ids; stdio result/error payloads = every value of depth<=2 plus every depth-3 object. ")
